@@ -38,6 +38,9 @@ OPS = {
 }
 
 
+NEED_ROWS = ("rows_list", "ROWSET_ASCII", "ROWSET_SAME", "ROW_GET")
+
+
 def op_rows_mask(a, c, bits):
     return a[c.ctx.arr(bits[:len(a)], "int64") == 1]
 
@@ -70,7 +73,7 @@ class Ragged(Harness):
         progs = list(self.PROGS)
         if tier == "thorough":
             singles = [p[0] for p in self.PROGS if len(p) == 1]
-            progs += [[a, b] for a in singles for b in singles if [a, b] not in progs and not (a == "ASSIGN")]
+            progs += [[a, b] for a in singles for b in singles if [a, b] not in progs and a not in ("ASSIGN", "EQ", "ROW_GET")]
         for kind in kinds:
             for lens in shapes:
                 for p in progs:
@@ -112,6 +115,8 @@ class Ragged(Harness):
         log = []
         result_kind = "rows"
         for op in skel["prog"]:
+            if op in NEED_ROWS and len(a) == 0:
+                break                              # nothing to index in a selection without rows: the program ends here
             if op == "MASK":
                 bits = [x[f"m{i}"] for i in range(len(a))]
                 a = a[ctx.arr(bits, "int64") == 1]
@@ -167,6 +172,8 @@ class Ragged(Harness):
         extra = {}
         ch, ch2 = g("ch"), g("ch2")
         for op in skel["prog"]:
+            if op in NEED_ROWS and len(rows) == 0:
+                break
             if op == "MASK":
                 bits = log.pop(0)
                 rows = [r for r, b in zip(rows, bits) if b]
